@@ -13,7 +13,6 @@ PENDING = {
  "C01": "engine not built yet in this snapshot (E-T/E-W translation validation of the lowering stages); see DESIGN.md section 8",
  "C04": "engine not built yet in this snapshot (operator templates / libsam.wat symbolic execution)",
  "C06": "engine not built yet in this snapshot (integer literal range kernel)",
- "C18": "engine not built: the planned check (one inductive step of Map/Set operations on symbolic trees, executed on the MIR of std/*.sam by E-T) was not completed; no other technique is substituted",
 }
 import sys
 claimed = json.load(open('/verif/manifest_checks.json'))
